@@ -1,7 +1,12 @@
 """Shared by C01 / C11 (and C03): building real Die objects from lattice descriptions and observing them."""
 from __future__ import annotations
 
+import hashlib
+import json
+import os
 import random
+import shutil
+import tempfile
 
 from ..lattice import EMBEDDINGS, OffLattice
 
@@ -63,9 +68,33 @@ def load_die(emb, mregs, dw, dh):
     from frame.netlist.netlist import Netlist
     Rectangle.undefine_epsilon()
     ddict, ndict = build_inputs(emb, mregs, dw, dh)
+    # the same description in each of the forms the constructor documents: a tree, a YAML text, a file name (also one that
+    # begins like a size: '30x20_die.yaml') and, for a die without regions, the string '<width>x<height>' with Python's own
+    # number spelling (so exponents under the small / large embeddings).  The form is a function of the case: replays
+    # rebuild it.
+    form = int(hashlib.sha1(repr((emb.name, mregs, dw, dh)).encode()).hexdigest(), 16) % 10
+    tmpdir = None
     try:
         net = Netlist(ndict) if ndict is not None else None
-        die = Die(ddict, net)
+        if form <= 4:
+            arg = ddict
+        elif form == 9 and "regions" not in ddict:
+            arg = f"{ddict['width']!r}x{ddict['height']!r}"
+        else:
+            text = json.dumps(ddict)
+            if form <= 6:
+                arg = text
+            else:
+                tmpdir = tempfile.mkdtemp(prefix="die")
+                name = f"{ddict['width']!r}x{ddict['height']!r}_die.yaml" if form == 8 else "die.yaml"
+                arg = os.path.join(tmpdir, name)
+                with open(arg, "w") as f:
+                    f.write(text + "\n")
+        try:
+            die = Die(arg, net)
+        finally:
+            if tmpdir:
+                shutil.rmtree(tmpdir, ignore_errors=True)
     except AssertionError as e:
         return None, {"op": "load", "verdict": "reject", "ground": [], "spec": [], "block": [], "fixed": [],
                       "why": str(e)[:120]}
